@@ -160,7 +160,8 @@ func newOVSDBClient(clientDBModel model.ClientDBModel, opts ...Option) (*ovsdbCl
 				deferredUpdates: make([]*bufferedUpdate, 0),
 			},
 		},
-		errorCh:         make(chan error),
+		// one pending error is enough to rebuild the cache: the read loop never waits for the handler
+		errorCh:         make(chan error, 1),
 		handlerShutdown: &sync.WaitGroup{},
 		disconnect:      make(chan struct{}),
 	}
@@ -345,7 +346,7 @@ func (o *ovsdbClient) connect(ctx context.Context, reconnect bool) error {
 	for _, db := range o.databases {
 		o.handlerShutdown.Add(1)
 		eventStopChan := make(chan struct{})
-		go o.handleClientErrors(eventStopChan)
+		go o.handleClientErrors(eventStopChan, o.rpcClient)
 		o.handlerShutdown.Add(1)
 		go func(db *database) {
 			defer o.handlerShutdown.Done()
@@ -683,7 +684,10 @@ func (o *ovsdbClient) update(params []json.RawMessage, reply *[]interface{}) err
 	db.cacheMutex.RUnlock()
 
 	if err != nil {
-		o.errorCh <- err
+		select {
+		case o.errorCh <- err:
+		default:
+		}
 	}
 
 	return err
@@ -730,7 +734,10 @@ func (o *ovsdbClient) update2(params []json.RawMessage, reply *[]interface{}) er
 	db.cacheMutex.RUnlock()
 
 	if err != nil {
-		o.errorCh <- err
+		select {
+		case o.errorCh <- err:
+		default:
+		}
 	}
 
 	return err
@@ -1300,7 +1307,7 @@ func (o *ovsdbClient) watchForLeaderChange() error {
 	return err
 }
 
-func (o *ovsdbClient) handleClientErrors(stopCh <-chan struct{}) {
+func (o *ovsdbClient) handleClientErrors(stopCh <-chan struct{}, rpcClient *rpc2.Client) {
 	defer o.handlerShutdown.Done()
 	var errColumnNotFound *mapper.ErrColumnNotFound
 	var errCacheInconsistent *cache.ErrCacheInconsistent
@@ -1326,7 +1333,9 @@ func (o *ovsdbClient) handleClientErrors(stopCh <-chan struct{}) {
 					}
 					db.monitorsMutex.Unlock()
 				}
-				o.Disconnect()
+				// drop the connection without waiting for the calls in
+				// flight: they may be waiting for this very connection
+				rpcClient.Close()
 			} else {
 				o.logger.V(3).Error(err, "error updating cache")
 			}
